@@ -43,6 +43,12 @@
 (*                   deadline of dial + response-header timeout which also  *)
 (*                   cuts the copy of the response body                     *)
 (*                                                                         *)
+(*                   "wraperror": something around the transport (tracing)  *)
+(*                   wraps its errors, the timeout is no longer recognised; *)
+(*                   "redial": a dial that timed out is tried once more;    *)
+(*                   "firststatus": after an informational (1xx) response   *)
+(*                   the final status is not written any more               *)
+(*                                                                         *)
 (* Histories: a request may travel over a NEW connection or over one an     *)
 (* earlier request left in the idle pool (ConnKinds); the response header   *)
 (* may be followed by a body that takes long to arrive.  The response-      *)
@@ -131,12 +137,17 @@ KeepIdleOf(ka) == IF ka < 0 THEN -1 ELSE IF ka = 0 THEN 15 ELSE ka \div 1000
 \* The handlers fabio puts in front of the transport (compression when proxy.gzip.contenttype
 \* is set and the client accepts gzip, the access log) and the kind of request (GET, HEAD,
 \* POST with a body, POST with "Expect: 100-continue") do not change what the client sees.
-Wraps == {"plain", "gzip", "log", "gzip+log"}
+\* (also tracing when tracing.TracingEnabled is set, the metrics of metrics.target)
+Wraps == {"plain", "gzip", "log", "gzip+log", "trace", "metrics", "trace+metrics+gzip+log"}
+HasTrace(w) == w \in {"trace", "trace+metrics+gzip+log"}
+HasGzip(w) == w \in {"gzip", "gzip+log", "trace+metrics+gzip+log"}
 ReqKinds == {"GET", "HEAD", "POST", "EXPECT"}
 Served(vals, d, wrap, req) ==
     LET o == Outcome(vals, d) IN
-    IF HandlerDeviation = "gzipdelay" /\ wrap \in {"gzip", "gzip+log"} /\ o.status = 504
+    IF HandlerDeviation = "gzipdelay" /\ HasGzip(wrap) /\ o.status = 504
     THEN [o EXCEPT !.status = 200]
+    ELSE IF HandlerDeviation = "wraperror" /\ HasTrace(wrap) /\ o.status = 504
+    THEN [o EXCEPT !.status = 500]
     ELSE IF HandlerDeviation = "expectwait" /\ req = "EXPECT" /\ o.status = 504
     THEN [o EXCEPT !.within = @ + 1000]
     ELSE o
@@ -148,6 +159,17 @@ ServedOn(vals, d, req, conn) ==
     IF HandlerDeviation = "retryreused" /\ conn = "reused" /\ req \in {"GET", "HEAD"} /\ o.status = 504
     THEN [o EXCEPT !.within = @ * 2]
     ELSE o
+\* An upstream that never answers the SYN: the dial timeout bounds the wait for the connection
+\* the same way (dial 0: no bound of fabio's own); the client gets a gateway error.
+Unreachable(vals) ==
+    [status |-> 504, within |-> IF HandlerDeviation = "redial" THEN 2 * vals.dial ELSE vals.dial]
+\* An upstream may send informational responses (103 Early Hints, 102 Processing) first.  They
+\* are not the answer: the response-header timeout waits for the FINAL header, and the client
+\* sees the final status `final` of the upstream when that comes in time.
+Informed(vals, d, pre, final) ==
+    LET o == Outcome(vals, d)
+        st == IF o.status = 200 THEN final ELSE o.status IN
+    IF HandlerDeviation = "firststatus" /\ pre # "none" THEN [o EXCEPT !.status = 200] ELSE [o EXCEPT !.status = st]
 \* a response whose header arrives after d and whose body takes another b to arrive
 Delivered(vals, d, b) ==
     LET o == Outcome(vals, d) IN
@@ -194,6 +216,15 @@ ReuseTransparent ==
         \A cl \in DelayClasses : \A r \in ReqKinds : \A k \in ConnKinds :
             LET d == DelayOf(cl, built[n].want.rht) IN
             ServedOn(built[n].vals, d, r, k) = Outcome(built[n].want, d)
+DialBounded ==
+    \A n \in DOMAIN built : built[n].want.dial > 0 =>
+        Unreachable(built[n].vals).within <= built[n].want.dial
+InformationalTransparent ==
+    \A n \in DOMAIN built : built[n].want.rht > 0 =>
+        \A cl \in DelayClasses : \A f \in {200, 404} :
+            LET d == DelayOf(cl, built[n].want.rht)
+                o == Outcome(built[n].want, d) IN
+            Informed(built[n].vals, d, "103", f).status = (IF o.status = 200 THEN f ELSE o.status)
 \* ... and a response that began in time is delivered completely, however long its body takes
 BodyNotLimited ==
     \A n \in DOMAIN built : built[n].want.rht > 0 =>
